@@ -172,6 +172,26 @@ def run(m: Model, r: Report, tier: str) -> None:
                 "after trying to switch the session, success is reported without reading the session back from the ECU (a positive DiagnosticSessionControl "
                 "response is not proof: the ECU may acknowledge without switching): " + " -> ".join(repr(gc.nodes[p_]) for p_ in pths[-4:]), loc=cs.loc)
 
+    # outside the "cannot read the session" handlers, success is reported exactly when the session read back equals the expected one
+    from sa.util import path_condition, truth_table
+    epar = cs.params()[1] if len(cs.params()) > 1 else "expected_session"
+    cur_vars = {n.targets[0].id for n in ast.walk(cs.node) if isinstance(n, ast.Assign) and isinstance(n.targets[0], ast.Name) and "self.read_session(" in ast.unparse(n.value)}
+    handlers_ = [h for t_ in ast.walk(cs.node) if isinstance(t_, ast.Try) for h in t_.handlers]
+    n_cmp = 0
+    for rt in [n for n in ast.walk(cs.node) if isinstance(n, ast.Return) and n.value is not None and ast.unparse(n.value) == "True"]:
+        if any(rt is x for h in handlers_ for x in ast.walk(h)):
+            continue
+        conds = [(t, pol) for t, pol in path_condition(cs.node, rt) if any(isinstance(x, ast.Name) and x.id in cur_vars for x in ast.walk(t))]
+        if not conds or len(cur_vars) != 1:
+            r.check(False, "R5", f"{cs.qualname}#success-condition@{rt.lineno - cs.node.lineno}", "success is reported without comparing the session read back with the expected one", loc=cs.loc)
+            continue
+        n_cmp += 1
+        cv = next(iter(cur_vars))
+        badc = truth_table(conds, {cv: [1, 3], epar: [1, 3]}, lambda a: a[cv] == a[epar])
+        r.check(not badc, "R5", f"{cs.qualname}#success-condition@{rt.lineno - cs.node.lineno}",
+                f"success is reported on {badc}: it must be reported exactly when the session read back equals the expected session", loc=cs.loc)
+    if n_cmp < 2:
+        raise AnalysisError(f"{cs.qualname}: expected two compared `return True` sites (before and after switching)")
     from sa.uds_rules import busy_last_attempt
     from sa.util import check_unravel_inclusive
     busy_last_attempt(m, r, "R4")
